@@ -305,18 +305,50 @@ def _r1(ctx, gr):
 
 
 def _callbacks(cls_node):
-    """name -> callback; a `def f(self, x): return <expr>` is presented as the lambda it is equivalent to"""
+    """name -> callback; a `def f(self, x): return <expr>` is presented as the lambda it is equivalent to.  Every target of a
+    chained assignment (`a = b = f`) is bound; a name bound to another function of the same class body (`atom = _concat`) is that
+    function."""
     out = {}
+
+    def present(s):
+        body = [x for x in s.body if not (isinstance(x, ast.Expr) and isinstance(x.value, ast.Constant))]
+        if len(body) == 1 and isinstance(body[0], ast.Return) and body[0].value is not None and not s.decorator_list:
+            return ast.copy_location(ast.Lambda(args=s.args, body=body[0].value), s)
+        return s
     for s in cls_node.body:
-        if isinstance(s, ast.Assign) and isinstance(s.targets[0], ast.Name):
-            out[s.targets[0].id] = s.value
+        if isinstance(s, ast.Assign):
+            val = s.value
+            if isinstance(val, ast.Name) and val.id in out:
+                val = out[val.id]
+            for t in s.targets:
+                if isinstance(t, ast.Name):
+                    out[t.id] = val
         elif isinstance(s, ast.FunctionDef):
-            body = [x for x in s.body if not (isinstance(x, ast.Expr) and isinstance(x.value, ast.Constant))]
-            if len(body) == 1 and isinstance(body[0], ast.Return) and body[0].value is not None and not s.decorator_list:
-                lam = ast.Lambda(args=s.args, body=body[0].value)
-                out[s.name] = ast.copy_location(lam, s)
-            else:
-                out[s.name] = s
+            out[s.name] = present(s)
+    return out
+
+
+def _class_consts(ci, order):
+    """{("attr", self, name): IR} of the class-level constants the transformer class reads through self (classes in MRO `order`,
+    the most derived first): strings, numbers, displays of such and `str.maketrans("ab", "xy")` tables -- what a callback that
+    says `self._prefix` / `self._table` computes with.  Names bound to functions are callbacks, not constants."""
+    from ..valueflow import simp
+    from ..ratemodel import _ev_literal
+    SELF = ("param", "self")
+    out = {}
+    for c in reversed(order):
+        for st in ci.nested[c].body:
+            if not (isinstance(st, ast.Assign) and all(isinstance(t, ast.Name) for t in st.targets)):
+                continue
+            v = st.value
+            pure = all(isinstance(n, (ast.Constant, ast.Tuple, ast.List, ast.Dict, ast.Load, ast.Call, ast.Attribute, ast.Name)) for n in ast.walk(v)) \
+                and all(ast.unparse(n.func) == "str.maketrans" and not n.keywords for n in ast.walk(v) if isinstance(n, ast.Call)) \
+                and all(n.id == "str" for n in ast.walk(v) if isinstance(n, ast.Name))
+            for t in st.targets:
+                if pure:
+                    out[("attr", SELF, t.id)] = simp(_ev_literal(v))
+                else:
+                    out.pop(("attr", SELF, t.id), None)
     return out
 
 
@@ -353,12 +385,19 @@ def _callback_returns(ci, cls_name, name):
 
     def resolver(n):
         for c in order:
-            for st in ci.nested[c].body:
-                if isinstance(st, ast.FunctionDef) and st.name == n and st is not fn:
-                    return st
+            g = _callbacks(ci.nested[c]).get(n)
+            if g is None:
+                continue
+            if isinstance(g, ast.Lambda):
+                f2 = ast.FunctionDef(name=n, args=g.args, body=[ast.Return(value=g.body)], decorator_list=[], returns=None, type_comment=None)
+                f2.type_params = []
+                g = ast.fix_missing_locations(ast.copy_location(f2, g))
+            return g if isinstance(g, ast.FunctionDef) and g is not fn else None
         return None
+    from ..valueflow import subst
+    cc = _class_consts(ci, order)
     fl = Flow(fn, CF, resolver=resolver)
-    return cb, arg, [simp(f.value) for f in fl.facts if f.kind == "return" and f.value is not None]
+    return cb, arg, [simp(subst(simp(f.value), cc)) for f in fl.facts if f.kind == "return" and f.value is not None]
 
 
 def _decompose(v, arg):
@@ -375,9 +414,22 @@ def _decompose(v, arg):
             return None
         v = parts[0][1]
     reps = []
-    while v[0] == "meth" and v[2] == "replace" and len(v[3]) == 2 and not v[4] and all(a[0] == "const" and isinstance(a[1], str) for a in v[3]):
-        reps.insert(0, (v[3][0][1], v[3][1][1]))
-        v = v[1]
+    while True:
+        if v[0] == "meth" and v[2] == "replace" and len(v[3]) == 2 and not v[4] and all(a[0] == "const" and isinstance(a[1], str) for a in v[3]):
+            reps.insert(0, (v[3][0][1], v[3][1][1]))
+            v = v[1]
+            continue
+        # x.translate(str.maketrans("abc", "xyz")): every a -> x, b -> y, c -> z at once.  That is the chain of single-character
+        # replacements in any order provided no replacement produces a character a later one consumes ("abc" and "xyz" disjoint)
+        if v[0] == "meth" and v[2] == "translate" and len(v[3]) == 1 and not v[4]:
+            t = v[3][0]
+            if t[0] == "meth" and t[1] == ("global", "str") and t[2] == "maketrans" and len(t[3]) == 2 and not t[4] \
+                    and all(a[0] == "const" and isinstance(a[1], str) for a in t[3]) and len(t[3][0][1]) == len(t[3][1][1]) \
+                    and len(set(t[3][0][1])) == len(t[3][0][1]) and not (set(t[3][0][1]) & set(t[3][1][1])):
+                reps = list(zip(t[3][0][1], t[3][1][1])) + reps
+                v = v[1]
+                continue
+        break
     if v[0] == "join" and v[1][0] == "const" and isinstance(v[1][1], str) and v[2] == ("param", arg):
         return pre, v[1][1], reps, post
     return None
@@ -389,7 +441,7 @@ def _selects_children(v, arg):
     for x in walk(v):
         if isinstance(x, tuple) and len(x) >= 2 and x[0] in ("item", "sub", "slice") and x[1] == ("param", arg):
             return True
-        if isinstance(x, tuple) and x[0] == "call" and x[1] in (("global", "reversed"), ("global", "sorted")) and x[2] and x[2][0] == ("param", arg):
+        if isinstance(x, tuple) and len(x) == 4 and x[0] == "call" and x[1] in (("global", "reversed"), ("global", "sorted")) and x[2] and x[2][0] == ("param", arg):
             return True
     return False
 
@@ -577,7 +629,9 @@ def _prepass(ctx, pkg, fn):
 
 def _r3(ctx, pkg):
     import re._parser as sp
-    fn = pkg.method("KROMEReaction", "rateexpr")
+    # the method with the private stages it may have been split into put back (statement helpers as statements: the
+    # <converter>.read(text) call of a helper is a call of rateexpr)
+    fn = pkg.expanded("KROMEReaction", "rateexpr")
     ctx.saw(KR, "KROMEReaction.rateexpr")
     conv, subs, repl, problem = _prepass(ctx, pkg, fn)
     if problem:
